@@ -138,7 +138,7 @@ Fixpoint bw_collect (l : list (result (list Q))) : result (list (list Q)) :=
   end.
 
 (* raw f r = decision value of fold model f on row r *)
-Definition bw_predict (c nfolds : nat) (thr : Q) (fold_of : list nat) (targets : list bool)
+Definition bw_predict (do_cal : bool) (c nfolds : nat) (thr : Q) (fold_of : list nat) (targets : list bool)
            (raw : list (list Z)) : result (list Q) :=
   let n := length fold_of in
   let rows : list bw_prow := combine (seq 0 n) (combine fold_of targets) in
@@ -146,7 +146,9 @@ Definition bw_predict (c nfolds : nat) (thr : Q) (fold_of : list nat) (targets :
   let chs := bw_chunks c rows in
   let per_fold f := flat_map (filter (fun x => Nat.eqb (bw_fold x) f)) chs in
   let score f (x : bw_prow) := nth (bw_idx x) (nth f raw []) 0%Z in
-  let cal f := calibrate (map (score f) (per_fold f)) (map bw_target (per_fold f)) thr in
+  (* estimators without decision_function are not calibrated *)
+  let cal f := if do_cal then calibrate (map (score f) (per_fold f)) (map bw_target (per_fold f)) thr
+               else Ok (map (fun x => inject_Z (score f x)) (per_fold f)) in
   match bw_collect (map cal (seq 0 nfolds)) with
   | Err e => Err e
   | Ok cals =>
@@ -155,9 +157,9 @@ Definition bw_predict (c nfolds : nat) (thr : Q) (fold_of : list nat) (targets :
   end.
 
 (* the whole scoring path of one file: split, route, predict, calibrate *)
-Definition bw_brew_scores (c k : nat) (thr : Q) (keys : list Z) (targets : list bool)
+Definition bw_brew_scores (do_cal : bool) (c k : nat) (thr : Q) (keys : list Z) (targets : list bool)
            (raw : list (list Z)) : result (list Q) :=
   match bw_split keys k with
   | Err e => Err e
-  | Ok folds => bw_predict c k thr (bw_fold_of folds (length keys)) targets raw
+  | Ok folds => bw_predict do_cal c k thr (bw_fold_of folds (length keys)) targets raw
   end.
